@@ -78,6 +78,12 @@ func (descriptor BundleDescriptor) Sync() error {
 		bi.Pending = !descriptor.HasConstraint(ReassemblyPending_) &&
 			(descriptor.HasConstraint(ForwardPending) || descriptor.HasConstraint(Contraindicated))
 
+		// A bundle still waiting to be dispatched, e.g., held back by the routing algorithm, must be retried as well.
+		// Otherwise synchronising it again, as for a duplicate reception, would take it out of the pending set for good.
+		if !descriptor.HasConstraint(ReassemblyPending_) && descriptor.HasConstraint(DispatchPending) {
+			bi.Pending = true
+		}
+
 		bi.Properties["bundlepack/receiver"] = descriptor.Receiver
 		bi.Properties["bundlepack/timestamp"] = descriptor.Timestamp
 		bi.Properties["bundlepack/constraints"] = descriptor.Constraints
